@@ -1,12 +1,1397 @@
-//! C18 - (to be written)
+//! C18 - serialisation round-trips, and rejects damaged input without corruption (engine E4: byte-stream fault
+//! enumerator).
+//!
+//! For every `ReaderFrom`/`WriterTo` type found by the source scan (`scan.rs`; a type without a driver is a machinery
+//! error) and every admissible parameter tuple of a small grid:
+//!  * `roundtrip`  - write, read back into receivers with the same shape, other scalar metadata, a larger capacity
+//!                   in each capacity dimension and in all of them, an exact capacity for a shrunk source, and a
+//!                   smaller capacity in each dimension;
+//!  * `truncation` - the stream cut at EVERY length 0..L-1;
+//!  * `header`     - EVERY header field replaced by EVERY entry of a boundary dictionary. Fields are located
+//!                   mechanically: (a) the deserialiser is run once on the valid stream through an instrumented
+//!                   `Read` that logs every (offset, length) it requests - every logged request that is not payload
+//!                   is a field; (b) every 4- and 8-byte word at 4-byte steps of every maximal non-payload run (from
+//!                   both ends of the run), (c) differential writes (two objects that differ in one parameter) label
+//!                   the words with the parameter(s) they encode.
+//! Each faulty stream is fed to a fresh receiver (same dimensions but other radix / seeds / Galois element / degrees /
+//! distribution, so that a change is visible; and one that is larger in every capacity dimension) inside `guarded`.
+//!
+//! Oracle (failure kinds): `read_from` never panics (`panic_overflow`, `panic_alloc`, `panic_other`); after EITHER
+//! outcome the dimensions seen through public accessors fit the buffer - size <= max_size, n*cols*size*8 <=
+//! data.len(), n*cols*max_size*8 <= data.len() - and `write_to` works on the object (`inconsistent_after_ok`,
+//! `inconsistent_after_err`); after `Err` the receiver re-serialises to the same stream length and the same
+//! non-payload bytes as before the call (`metadata_changed_on_err`); a strict prefix is never accepted
+//! (`accepted_truncated`); a valid stream is accepted by every receiver of sufficient capacity
+//! (`roundtrip_rejected`) and reproduces the object (`roundtrip_mismatch`: re-serialised stream, logical
+//! dimensions, the type's own `==`).
+//! Not judged, only recorded in the evidence notes: panics of public information accessors on an accepted object
+//! (`accessor_panic_after_*`) and lenient parsing (`accepted_not_faithful`).
+//!
+//! Failures are grouped per (family, type, operation, kind, normalised detail); the representative is the instance
+//! with the smallest (case, inner) index, `instances` counts the group and `seen_with` lists the value classes,
+//! fields and receivers of the group.
 
-use pvc_engine::Run;
-use serde_json::Value;
+use crate::scan;
+use crate::subjects::{DRIVERS, Dim, P, Shape, Subject};
+use crate::with_subject;
+use pvc_engine::rng::Rng;
+use pvc_engine::{Failure, Rec, Run, Tier, fnv, guarded};
+use serde::{Deserialize, Serialize};
+use serde_json::{Value, json};
+use std::collections::BTreeMap;
+use std::io::Read;
+use std::sync::Mutex;
 
-pub fn run(_run: &mut Run) {
-    panic!("C18: not implemented yet");
+pub const B2K: usize = 17;
+pub const B2K_ALT: usize = 13;
+
+// ------------------------------------------------------------------------------------------------ cases
+
+#[derive(Clone, Copy, Debug, PartialEq, Eq, Serialize, Deserialize)]
+pub enum Recv {
+    /// same dimensions, other radix and other settable metadata
+    Alt,
+    /// every capacity dimension one step larger, other radix and metadata
+    Larger,
 }
 
-pub fn replay(_run: &mut Run, _d: &Value) {
-    panic!("C18: not implemented yet");
+#[derive(Clone, Debug, Serialize, Deserialize)]
+pub struct Case {
+    pub idx: usize,
+    pub ty: String,
+    pub p: P,
+    /// receiver kind of the fault families (unused by `roundtrip`)
+    pub recv: Recv,
+}
+
+fn dim_values(d: Dim, tier: Tier) -> Vec<usize> {
+    let t = tier.is_thorough();
+    match d {
+        Dim::N => {
+            if t {
+                vec![8, 16]
+            } else {
+                vec![8]
+            }
+        }
+        Dim::Size => {
+            if t {
+                vec![1, 2, 3, 4]
+            } else {
+                vec![1, 2, 3]
+            }
+        }
+        Dim::Rank => vec![0, 1, 2],
+        Dim::RankIn => {
+            if t {
+                vec![1, 2]
+            } else {
+                vec![1]
+            }
+        }
+        Dim::Dnum => vec![1, 2],
+        Dim::Dsize => vec![1, 2],
+        Dim::Cnt => {
+            if t {
+                vec![1, 2]
+            } else {
+                vec![1]
+            }
+        }
+        Dim::Opt => vec![0, 1],
+        Dim::Shrink => vec![0, 1],
+    }
+}
+
+fn base_p() -> P {
+    P {
+        n: 0,
+        b2k: B2K,
+        size: 0,
+        rank: 0,
+        rank_in: 0,
+        dnum: 0,
+        dsize: 0,
+        cnt: 0,
+        opt: 0,
+        shrink: 0,
+    }
+}
+
+/// A parameter tuple is admissible if the library constructor accepts it (its asserts are the documented
+/// preconditions) and the fresh object answers its own accessors.
+fn admissible<S: Subject>(p: &P) -> bool {
+    guarded(|| {
+        let mut o = S::alloc(p);
+        if p.shrink > 0 && !o.shrink(p.shrink) {
+            panic!("cannot shrink");
+        }
+        let mut v = vec![];
+        o.shapes(&mut v);
+        o.probe();
+        let mut b = vec![];
+        o.write_to(&mut b).unwrap();
+    })
+    .is_ok()
+}
+
+fn grid<S: Subject>(tier: Tier) -> (Vec<P>, usize) {
+    let mut out = vec![base_p()];
+    for d in S::DIMS {
+        let mut next = vec![];
+        for p in &out {
+            for v in dim_values(*d, tier) {
+                next.push(p.with(*d, v));
+            }
+        }
+        out = next;
+    }
+    let total = out.len();
+    let mut out: Vec<P> = out.into_iter().filter(|p| admissible::<S>(p)).collect();
+    // simplest first: by serialised volume, then lexicographically
+    out.sort_by_key(|p| (p.n * (p.size.max(1)) * (p.rank + 1) * p.rank_in.max(1) * p.dnum.max(1) * p.cnt.max(1), *p));
+    (out, total)
+}
+
+fn grid_of(ty: &str, tier: Tier) -> (Vec<P>, usize) {
+    with_subject!(ty, grid(tier))
+}
+
+// ------------------------------------------------------------------------------------------------ stream tools
+
+/// Writer that refuses to grow beyond `limit` bytes (a receiver that committed a garbage seed count would
+/// otherwise re-serialise to gigabytes).
+struct Bounded {
+    buf: Vec<u8>,
+    limit: usize,
+}
+
+const SNAPSHOT_LIMIT: &str = "snapshot exceeds its size bound";
+
+impl std::io::Write for Bounded {
+    fn write(&mut self, b: &[u8]) -> std::io::Result<usize> {
+        if self.buf.len() + b.len() > self.limit {
+            return Err(std::io::Error::other(SNAPSHOT_LIMIT));
+        }
+        self.buf.extend_from_slice(b);
+        Ok(b.len())
+    }
+    fn flush(&mut self) -> std::io::Result<()> {
+        Ok(())
+    }
+}
+
+fn ser<S: Subject>(o: &S) -> Result<Vec<u8>, String> {
+    ser_bounded(o, 1 << 24)
+}
+
+fn ser_bounded<S: Subject>(o: &S, limit: usize) -> Result<Vec<u8>, String> {
+    match guarded(|| {
+        let mut b = Bounded {
+            buf: Vec::new(),
+            limit,
+        };
+        o.write_to(&mut b).map(|_| b.buf)
+    }) {
+        Ok(Ok(b)) => Ok(b),
+        Ok(Err(e)) => Err(format!("write_to error: {e}")),
+        Err(p) => Err(format!("write_to panic: {p}")),
+    }
+}
+
+/// `Read` over a slice that logs every request it serves.
+struct Tracer<'a> {
+    buf: &'a [u8],
+    pos: usize,
+    log: Vec<(usize, usize)>,
+}
+
+impl Read for Tracer<'_> {
+    fn read(&mut self, out: &mut [u8]) -> std::io::Result<usize> {
+        let n = out.len().min(self.buf.len() - self.pos);
+        out[..n].copy_from_slice(&self.buf[self.pos..self.pos + n]);
+        if n > 0 {
+            self.log.push((self.pos, n));
+        }
+        self.pos += n;
+        Ok(n)
+    }
+}
+
+#[derive(Clone, Debug)]
+pub struct Seg {
+    pub off: usize,
+    pub len: usize,
+    pub payload: bool,
+}
+
+/// Byte-level structure of the stream of one (type, parameters, metadata variant).
+pub struct Layout {
+    pub segs: Vec<Seg>,
+    /// non-payload bytes
+    pub header: Vec<bool>,
+    pub len: usize,
+}
+
+impl Layout {
+    fn runs(&self) -> Vec<(usize, usize)> {
+        let mut out = vec![];
+        let mut i = 0;
+        while i < self.len {
+            if self.header[i] {
+                let a = i;
+                while i < self.len && self.header[i] {
+                    i += 1;
+                }
+                out.push((a, i));
+            } else {
+                i += 1;
+            }
+        }
+        out
+    }
+    fn seg_at(&self, pos: usize) -> Option<(usize, &Seg)> {
+        self.segs.iter().enumerate().find(|(_, s)| s.off <= pos && pos < s.off + s.len)
+    }
+}
+
+fn new_obj<S: Subject>(p: &P, meta: u64) -> S {
+    let mut o = S::alloc(p);
+    o.set_meta(meta);
+    if p.shrink > 0 {
+        assert!(o.shrink(p.shrink), "cannot shrink");
+    }
+    o
+}
+
+fn layout<S: Subject>(p: &P, meta: u64) -> Result<Layout, String> {
+    let mut o: S = new_obj(p, meta);
+    let s0 = ser(&o)?;
+    // the deserialiser itself tells where it reads what
+    let mut full = *p;
+    full.shrink = 0;
+    let mut r: S = S::alloc(&full);
+    let mut tr = Tracer {
+        buf: &s0,
+        pos: 0,
+        log: vec![],
+    };
+    match guarded(|| r.read_from(&mut tr)) {
+        Ok(Ok(())) => {}
+        Ok(Err(e)) => return Err(format!("valid stream rejected by a fresh receiver of the same parameters: {e}")),
+        Err(m) => return Err(format!("panic while reading a valid stream: {m}")),
+    }
+    if tr.pos != s0.len() {
+        return Err(format!("reader consumed {} of {} bytes of a valid stream", tr.pos, s0.len()));
+    }
+    let mut segs: Vec<Seg> = tr
+        .log
+        .iter()
+        .map(|&(off, len)| Seg {
+            off,
+            len,
+            payload: false,
+        })
+        .collect();
+    let mut at = 0;
+    for s in &segs {
+        assert_eq!(s.off, at, "read requests are not contiguous");
+        at += s.len;
+    }
+    if S::STREAM_FILL {
+        // no FillUniform: a request longer than a seed (32 bytes) is coefficient payload (n >= 8 on the grid)
+        for s in segs.iter_mut() {
+            s.payload = s.len > 32;
+        }
+    } else {
+        o.fill(0xA11CE);
+        let a = ser(&o)?;
+        o.fill(0xB0B);
+        let b = ser(&o)?;
+        if a.len() != s0.len() || b.len() != s0.len() {
+            return Err("stream length depends on the payload".into());
+        }
+        for s in segs.iter_mut() {
+            let r = s.off..s.off + s.len;
+            s.payload = a[r.clone()] != b[r.clone()] || a[r.clone()] != s0[r];
+        }
+    }
+    let mut header = vec![true; s0.len()];
+    for s in &segs {
+        if s.payload {
+            header[s.off..s.off + s.len].fill(false);
+        }
+    }
+    Ok(Layout {
+        segs,
+        header,
+        len: s0.len(),
+    })
+}
+
+/// Object with metadata variant `meta` and a garbage payload derived from `seed`.
+fn make<S: Subject>(p: &P, meta: u64, seed: u64) -> Result<S, String> {
+    let mut o: S = new_obj(p, meta);
+    if S::STREAM_FILL {
+        let lay = layout::<S>(p, meta)?;
+        let mut g = ser(&o)?;
+        let mut rng = Rng::new(seed, 0x5712EA);
+        for s in lay.segs.iter().filter(|s| s.payload) {
+            for c in g[s.off..s.off + s.len].chunks_mut(8) {
+                let w = rng.next().to_le_bytes();
+                c.copy_from_slice(&w[..c.len()]);
+            }
+        }
+        match guarded(|| o.read_from(&mut &g[..])) {
+            Ok(Ok(())) => {}
+            Ok(Err(e)) => return Err(format!("payload-randomised valid stream rejected: {e}")),
+            Err(m) => return Err(format!("panic on payload-randomised valid stream: {m}")),
+        }
+        if ser(&o)? != g {
+            return Err("payload-randomised valid stream does not re-serialise to itself".into());
+        }
+    } else {
+        o.fill(seed);
+    }
+    Ok(o)
+}
+
+// ------------------------------------------------------------------------------------------------ observation
+
+struct Obs {
+    shapes: Result<Vec<Shape>, String>,
+    probe: Result<(), String>,
+    snap: Result<Vec<u8>, String>,
+}
+
+fn observe<S: Subject>(o: &S, limit: usize) -> Obs {
+    Obs {
+        shapes: guarded(|| {
+            let mut v = vec![];
+            o.shapes(&mut v);
+            v
+        }),
+        probe: guarded(|| o.probe()),
+        snap: ser_bounded(o, limit),
+    }
+}
+
+/// byte capacity of each buffer of a freshly allocated receiver
+fn capacities(shapes: &[Shape]) -> Vec<u128> {
+    shapes
+        .iter()
+        .map(|s| match s.len {
+            Some(l) => l as u128,
+            // the library allocates every buffer padded to a multiple of 64 bytes (poulpy_hal::alloc_aligned)
+            None => s.bytes(s.max_size.unwrap_or(s.size)).div_ceil(64) * 64,
+        })
+        .collect()
+}
+
+#[derive(Clone, Debug)]
+struct Finding {
+    kind: String,
+    detail: String,
+    extra: Value,
+    /// false: recorded as an observation (counter + sample in the evidence notes), not judged by C18
+    judged: bool,
+}
+
+fn finding(kind: &str, detail: impl Into<String>, extra: Value) -> Finding {
+    Finding {
+        kind: kind.to_string(),
+        detail: detail.into(),
+        extra,
+        judged: true,
+    }
+}
+
+fn observation(kind: &str, detail: impl Into<String>, extra: Value) -> Finding {
+    Finding {
+        kind: kind.to_string(),
+        detail: detail.into(),
+        extra,
+        judged: false,
+    }
+}
+
+fn panic_kind(msg: &str) -> &'static str {
+    if msg.contains("memory allocation") || msg.contains("capacity overflow") {
+        "panic_alloc"
+    } else if msg.contains("overflow") {
+        "panic_overflow"
+    } else {
+        "panic_other"
+    }
+}
+
+/// strips the run-specific part of a message (numbers) so that messages group
+fn norm(msg: &str) -> String {
+    let mut out = String::new();
+    let mut last_digit = false;
+    for c in msg.chars() {
+        if c.is_ascii_digit() {
+            if !last_digit {
+                out.push('#');
+            }
+            last_digit = true;
+        } else {
+            out.push(c);
+            last_digit = false;
+        }
+    }
+    out.chars().take(160).collect()
+}
+
+enum Outcome {
+    Ok,
+    Err(String),
+    Panic(String),
+}
+
+struct ReceiverModel<'a> {
+    obs0: &'a Obs,
+    caps: &'a [u128],
+    lay: &'a Layout,
+}
+
+/// The oracle on the state of a receiver after `read_from` returned (`fed[..consumed]` is what it took).
+fn post_check(out: &Outcome, m: &ReceiverModel, obs1: &Obs, fed: &[u8], consumed: usize) -> Vec<Finding> {
+    let mut f = vec![];
+    let after = match out {
+        Outcome::Ok => "ok",
+        Outcome::Err(_) => "err",
+        Outcome::Panic(_) => return f,
+    };
+    let mut dims_bad = false;
+    match &obs1.shapes {
+        Err(msg) => {
+            // the dimension accessors themselves panic (e.g. rank = cols - 1 underflows on an accepted cols = 0):
+            // the inequalities cannot be evaluated; reported as an observation, C18 does not promise accessors
+            dims_bad = true;
+            f.push(observation(&format!("accessor_panic_after_{after}"), norm(msg), json!({"accessor": "dimensions", "panic": msg})))
+        }
+        Ok(sh) => {
+            for (i, s) in sh.iter().enumerate() {
+                let Some(cap) = m.caps.get(i).copied() else {
+                    continue;
+                };
+                let mut bad = vec![];
+                if let Some(ms) = s.max_size {
+                    if s.size > ms {
+                        bad.push("size>max_size");
+                    }
+                    if s.bytes(ms) > cap {
+                        bad.push("n*cols*max_size*8>data.len()");
+                    }
+                }
+                if s.bytes(s.size) > cap {
+                    bad.push("n*cols*size*8>data.len()");
+                }
+                if !bad.is_empty() {
+                    dims_bad = true;
+                    f.push(finding(
+                        &format!("inconsistent_after_{after}"),
+                        bad.join(" & "),
+                        json!({"buffer": s.what, "dims": s.dims, "size": s.size, "max_size": s.max_size, "data_len": cap.min(u64::MAX as u128) as u64}),
+                    ));
+                }
+            }
+        }
+    }
+    if let Err(msg) = &obs1.probe {
+        f.push(observation(&format!("accessor_panic_after_{after}"), norm(msg), json!({"accessor": "infos", "panic": msg})));
+    }
+    match (&obs1.snap, &m.obs0.snap) {
+        (Err(msg), Ok(s0)) => {
+            if msg.contains(SNAPSHOT_LIMIT) {
+                if matches!(out, Outcome::Err(_)) {
+                    f.push(finding(
+                        "metadata_changed_on_err",
+                        "first changed stream_len",
+                        json!({"changed": [{"stream_len_before": s0.len(), "stream_len_after": "more than 2x the stream that was fed"}]}),
+                    ));
+                } else {
+                    f.push(observation("accepted_not_faithful", "re-serialised stream grows beyond 2x the accepted stream", json!({})));
+                }
+            } else if !dims_bad {
+                // write_to refuses or panics on the object: its dimensions exceed its buffer
+                f.push(finding(&format!("inconsistent_after_{after}"), format!("write_to fails: {}", norm(msg)), json!({"write_to": msg})));
+            }
+        }
+        (Ok(s1), Ok(s0)) => match out {
+            Outcome::Err(_) => {
+                // metadata unchanged: same length and same non-payload bytes as before the call
+                let mut changed = vec![];
+                if s1.len() != s0.len() {
+                    changed.push(json!({"stream_len_before": s0.len(), "stream_len_after": s1.len()}));
+                }
+                let mut offs = vec![];
+                for i in 0..s1.len().min(s0.len()) {
+                    if m.lay.header.get(i).copied().unwrap_or(false) && s1[i] != s0[i] {
+                        offs.push(i);
+                    }
+                }
+                if !offs.is_empty() || !changed.is_empty() {
+                    // express the change as traced fields of the receiver's own stream
+                    let mut fields = vec![];
+                    let mut seen = std::collections::BTreeSet::new();
+                    for o in &offs {
+                        if let Some((si, sg)) = m.lay.seg_at(*o)
+                            && seen.insert(si)
+                            && fields.len() < 6
+                        {
+                            let r = sg.off..sg.off + sg.len;
+                            fields.push(json!({"off": sg.off, "w": sg.len, "before": hex(&s0[r.clone()]), "after": hex(&s1[r])}));
+                        }
+                    }
+                    let first = offs.first().and_then(|o| m.lay.seg_at(*o)).map(|(_, s)| format!("field@{}+{}", s.off, s.len)).unwrap_or_else(|| "stream_len".into());
+                    f.push(finding(
+                        "metadata_changed_on_err",
+                        format!("first changed {first}"),
+                        json!({"changed_fields": fields, "changed": changed, "changed_bytes": offs.len()}),
+                    ));
+                } else if let (Ok(a), Ok(b)) = (&obs1.shapes, &m.obs0.shapes)
+                    && a != b
+                {
+                    f.push(finding("metadata_changed_on_err", "dimensions", json!({"before": b, "after": a})));
+                }
+            }
+            Outcome::Ok => {
+                // the receiver now holds what it consumed (lenient parsing of don't-care bits is only noted)
+                let acc = &fed[..consumed.min(fed.len())];
+                if s1 != acc {
+                    let d = (0..s1.len().min(acc.len())).find(|&i| s1[i] != acc[i]);
+                    f.push(observation(
+                        "accepted_not_faithful",
+                        "accepted bytes are not what the receiver re-serialises to",
+                        json!({"first_diff": d, "len_consumed": acc.len(), "len_back": s1.len()}),
+                    ));
+                }
+            }
+            Outcome::Panic(_) => {}
+        },
+        _ => {}
+    }
+    f
+}
+
+fn hex(b: &[u8]) -> String {
+    if b.len() == 8 {
+        format!("{}", u64::from_le_bytes(b.try_into().unwrap()))
+    } else if b.len() == 4 {
+        format!("{}", u32::from_le_bytes(b.try_into().unwrap()))
+    } else {
+        b.iter().take(16).map(|x| format!("{x:02x}")).collect::<String>()
+    }
+}
+
+// ------------------------------------------------------------------------------------------------ failure collection
+
+struct Entry {
+    order: u64,
+    desc: Value,
+    count: u64,
+    tags: BTreeMap<&'static str, std::collections::BTreeSet<String>>,
+}
+
+/// Failures are grouped by class (family, type, operation, kind, normalised detail) over the whole family; the
+/// instance with the smallest (case, inner) index is kept as the representative (deterministic irrespective of
+/// scheduling), the others are counted and their value classes / field labels / receivers accumulated.
+pub struct Collector {
+    map: Mutex<BTreeMap<String, Entry>>,
+}
+
+impl Collector {
+    fn new() -> Self {
+        Collector {
+            map: Mutex::new(BTreeMap::new()),
+        }
+    }
+    /// merges the per-case aggregate of one worker (one lock acquisition per outer case)
+    fn merge(&self, local: BTreeMap<String, Entry>) {
+        let mut m = self.map.lock().unwrap();
+        for (k, l) in local {
+            match m.get_mut(&k) {
+                Some(e) => {
+                    e.count += l.count;
+                    if l.order < e.order {
+                        e.order = l.order;
+                        e.desc = l.desc;
+                    }
+                    for (t, set) in l.tags {
+                        let dst = e.tags.entry(t).or_default();
+                        for v in set {
+                            if dst.len() < 40 {
+                                dst.insert(v);
+                            }
+                        }
+                    }
+                }
+                None => {
+                    m.insert(k, l);
+                }
+            }
+        }
+    }
+    fn drain(self) -> Vec<(u64, Value, u64)> {
+        let mut v: Vec<(u64, Value, u64)> = self
+            .map
+            .into_inner()
+            .unwrap()
+            .into_values()
+            .map(|e| {
+                let mut d = e.desc;
+                if let Value::Object(m) = &mut d {
+                    m.insert("instances".into(), json!(e.count));
+                    m.insert("seen_with".into(), json!(e.tags));
+                }
+                (e.order, d, e.count)
+            })
+            .collect();
+        v.sort_by_key(|e| e.0);
+        v
+    }
+    fn flush(self, run: &mut Run, family: &str) {
+        let v = self.drain();
+        let Some(fam) = run.families.iter_mut().rev().find(|f| f.name == family) else {
+            return;
+        };
+        let mut total = 0;
+        for (order, mut d, n) in v {
+            total += n;
+            if let Value::Object(m) = &mut d {
+                m.insert("family".into(), json!(family));
+                m.insert("outer_index".into(), json!(order >> 24));
+            }
+            fam.rec.failures.push(Failure { desc: d });
+        }
+        fam.rec.extra.insert("violating_executions".into(), total);
+        let classes = fam.rec.failures.len();
+        fam.rec.extra.insert("violation_classes".into(), classes as u64);
+        if classes > 0 {
+            eprintln!("[C18] family {family}: {total} violating executions in {classes} classes");
+        }
+    }
+    fn flush_notes(self, run: &mut Run, family: &str) {
+        let v: Vec<Value> = self.drain().into_iter().map(|(_, d, _)| d).collect();
+        if !v.is_empty() {
+            eprintln!("[C18] family {family}: {} observation classes outside the property (see evidence notes)", v.len());
+            run.note(&format!("observations_not_judged.{family}"), json!(v));
+        }
+    }
+}
+
+struct Cx<'a> {
+    fam: &'static str,
+    case: &'a Case,
+    rec: &'a mut Rec,
+    /// per-case aggregates, merged into the family collectors when the case ends
+    local_fail: BTreeMap<String, Entry>,
+    local_obs: BTreeMap<String, Entry>,
+    inner_ctr: u64,
+}
+
+fn local_report(map: &mut BTreeMap<String, Entry>, key: String, order: u64, tags: &[(&'static str, String)], desc: impl FnOnce() -> Value) {
+    let e = match map.get_mut(&key) {
+        Some(e) => {
+            // orders grow within a case: the first instance stays the representative
+            e.count += 1;
+            e
+        }
+        None => map.entry(key).or_insert(Entry {
+            order,
+            desc: desc(),
+            count: 1,
+            tags: BTreeMap::new(),
+        }),
+    };
+    for (k, v) in tags {
+        let set = e.tags.entry(k).or_default();
+        if set.len() < 40 && !set.contains(v) {
+            set.insert(v.clone());
+        }
+    }
+}
+
+impl Cx<'_> {
+    fn order(&mut self) -> u64 {
+        self.inner_ctr += 1;
+        ((self.case.idx as u64) << 24) | self.inner_ctr.min((1 << 24) - 1)
+    }
+    fn fail(&mut self, op: &str, f: &Finding, tags: &[(&'static str, String)], inner: &Value, more: &Value) {
+        let order = self.order();
+        let key = format!("{}|{}|{}|{}|{}", self.fam, self.case.ty, op, f.kind, norm(&f.detail));
+        let case = self.case;
+        let build = || {
+            let mut d = json!({
+                "op": op, "backend": "any", "kind": f.kind, "detail": f.detail, "type": case.ty,
+                "case": case, "inner": inner,
+            });
+            let m = d.as_object_mut().unwrap();
+            if let Value::Object(e) = &f.extra {
+                for (k, v) in e {
+                    m.insert(k.clone(), v.clone());
+                }
+            }
+            if let Value::Object(e) = more {
+                for (k, v) in e {
+                    m.insert(k.clone(), v.clone());
+                }
+            }
+            d
+        };
+        if f.judged {
+            self.rec.add(&format!("viol.{}", f.kind), 1);
+            local_report(&mut self.local_fail, key, order, tags, build);
+        } else {
+            self.rec.add(&format!("obs.{}", f.kind), 1);
+            local_report(&mut self.local_obs, key, order, tags, build);
+        }
+    }
+}
+
+// ------------------------------------------------------------------------------------------------ receivers
+
+fn alt_of(p: &P) -> P {
+    let mut q = *p;
+    q.b2k = B2K_ALT;
+    q.shrink = 0;
+    q
+}
+
+/// every capacity dimension one step larger, as far as the constructor admits the combination
+fn larger_of<S: Subject>(p: &P) -> P {
+    let mut q = alt_of(p);
+    for d in S::CAP {
+        let g = q.grow(*d);
+        if admissible::<S>(&g) {
+            q = g;
+        }
+    }
+    q
+}
+
+struct Receiver<S: Subject> {
+    p: P,
+    template: S,
+    /// stream that rebuilds the template (types without Clone)
+    template_stream: Vec<u8>,
+    obs0: Obs,
+    caps: Vec<u128>,
+    lay: Layout,
+}
+
+impl<S: Subject> Receiver<S> {
+    fn build(p: &P, meta: u64, seed: u64) -> Result<Self, String> {
+        let template: S = make(p, meta, seed)?;
+        let obs0 = observe(&template, 1 << 24);
+        let shapes = obs0.shapes.clone().map_err(|e| format!("fresh receiver: {e}"))?;
+        let template_stream = obs0.snap.clone().map_err(|e| format!("fresh receiver: {e}"))?;
+        obs0.probe.clone().map_err(|e| format!("fresh receiver: {e}"))?;
+        let lay = layout::<S>(p, meta)?;
+        if lay.len != template_stream.len() {
+            return Err("receiver layout length mismatch".into());
+        }
+        Ok(Receiver {
+            p: *p,
+            caps: capacities(&shapes),
+            template,
+            template_stream,
+            obs0,
+            lay,
+        })
+    }
+    fn fresh(&self) -> S {
+        match self.template.clone_opt() {
+            Some(c) => c,
+            None => {
+                let mut o = S::alloc(&self.p);
+                o.read_from(&mut &self.template_stream[..]).expect("rebuilding a receiver from its own stream");
+                o
+            }
+        }
+    }
+    fn model(&self) -> ReceiverModel<'_> {
+        ReceiverModel {
+            obs0: &self.obs0,
+            caps: &self.caps,
+            lay: &self.lay,
+        }
+    }
+    /// bound of the post-read snapshot: twice the larger of the receiver's own and the fed stream
+    fn limit(&self, fed: usize) -> usize {
+        2 * self.template_stream.len().max(fed) + 4096
+    }
+}
+
+/// Runs `read_from` on `bytes`; returns the outcome and the number of bytes the reader took.
+fn feed<S: Subject>(r: &mut S, bytes: &[u8]) -> (Outcome, usize) {
+    let mut rd: &[u8] = bytes;
+    let out = match guarded(|| r.read_from(&mut rd)) {
+        Ok(Ok(())) => Outcome::Ok,
+        Ok(Err(e)) => Outcome::Err(e.to_string()),
+        Err(m) => Outcome::Panic(m),
+    };
+    (out, bytes.len() - rd.len())
+}
+
+fn outcome_hash(ty: &str, o: &Outcome) -> u64 {
+    let s = match o {
+        Outcome::Ok => "ok".to_string(),
+        Outcome::Err(e) => format!("err:{}", norm(e)),
+        Outcome::Panic(e) => format!("panic:{}", norm(e)),
+    };
+    fnv(format!("{ty}|{s}").as_bytes())
+}
+
+// ------------------------------------------------------------------------------------------------ family: roundtrip
+
+fn exec_roundtrip<S: Subject>(cx: &mut Cx) {
+    let p = cx.case.p;
+    let none = json!({});
+    let src: S = match make(&p, 0, 1) {
+        Ok(s) => s,
+        Err(e) => {
+            let f = finding("roundtrip_mismatch", e.clone(), json!({"error": e}));
+            cx.fail("write_to+read_from", &f, &[], &json!({"receiver": "fresh"}), &none);
+            return;
+        }
+    };
+    let stream = match ser(&src) {
+        Ok(s) => s,
+        Err(e) => {
+            let f = finding(if e.contains("panic") { "panic_other" } else { "write_failed" }, e.clone(), json!({"error": e}));
+            cx.fail("write_to", &f, &[], &none, &none);
+            return;
+        }
+    };
+    cx.rec.add("streams", 1);
+    cx.rec.add("stream_bytes", stream.len() as u64);
+    cx.rec.sample(|| json!({"type": S::NAME, "p": p, "stream_len": stream.len()}));
+    let src_shapes = {
+        let mut v = vec![];
+        src.shapes(&mut v);
+        v
+    };
+    // (name, params, metadata variant, capacity certainly sufficient)
+    let mut rs: Vec<(String, P, u64, bool)> = vec![];
+    let mut same = p;
+    same.shrink = 0;
+    rs.push(("same".into(), same, 0, true));
+    rs.push(("alt_metadata".into(), alt_of(&p), 1, true));
+    for d in S::CAP {
+        rs.push((format!("larger:{}", d.name()), alt_of(&p).grow(*d), 1, true));
+    }
+    if S::CAP.len() > 1 {
+        rs.push(("larger:all".into(), larger_of::<S>(&p), 1, true));
+    }
+    if p.shrink > 0 {
+        // capacity exactly the active limb count of the shrunk source
+        let mut q = alt_of(&p);
+        q.size = p.size - p.shrink;
+        // not "sufficient" in the sense of the property: an equal object would need the source's max_size, which this
+        // buffer cannot hold, so rejecting is as acceptable as accepting - but the outcome must be consistent
+        rs.push(("exact_active_size".into(), q, 1, false));
+    }
+    for d in S::CAP {
+        if let Some(q) = alt_of(&p).reduce(*d) {
+            rs.push((format!("smaller:{}", d.name()), q, 1, false));
+        }
+    }
+    for (name, q, meta, sufficient) in rs {
+        if !admissible::<S>(&q) {
+            cx.rec.add("receivers_inadmissible", 1);
+            continue;
+        }
+        let inner = json!({"receiver": name, "receiver_p": q});
+        let tags = [("receivers", name.clone())];
+        let recv = match Receiver::<S>::build(&q, meta, 2) {
+            Ok(r) => r,
+            Err(e) => {
+                let f = finding("roundtrip_mismatch", e.clone(), json!({"error": e}));
+                cx.fail("write_to+read_from", &f, &tags, &inner, &none);
+                continue;
+            }
+        };
+        let mut r = recv.fresh();
+        let (out, consumed) = feed(&mut r, &stream);
+        cx.rec.evals(1);
+        cx.rec.add("roundtrips", 1);
+        cx.rec.distinct(fnv(format!("{}|{}|{:?}", S::NAME, name, p).as_bytes()));
+        cx.rec.outcome(outcome_hash(S::NAME, &out));
+        let obs1 = observe(&r, recv.limit(stream.len()));
+        match &out {
+            Outcome::Panic(m) => {
+                let f = finding(panic_kind(m), norm(m), json!({"panic": m}));
+                cx.fail("read_from", &f, &tags, &inner, &none);
+            }
+            Outcome::Err(e) => {
+                if sufficient {
+                    let f = finding("roundtrip_rejected", norm(e), json!({"error": e}));
+                    cx.fail("read_from", &f, &tags, &inner, &none);
+                }
+            }
+            Outcome::Ok => {
+                // equality: re-serialisation, logical dimensions, and the type's own == where the shapes coincide
+                let mut why = vec![];
+                if consumed != stream.len() {
+                    why.push(format!("reader consumed {consumed} of {} bytes", stream.len()));
+                }
+                match &obs1.snap {
+                    Ok(s) if *s == stream => {}
+                    Ok(s) => why.push(format!(
+                        "re-serialised stream differs at byte {:?} (len {} vs {})",
+                        (0..s.len().min(stream.len())).find(|&i| s[i] != stream[i]),
+                        s.len(),
+                        stream.len()
+                    )),
+                    Err(_) => {}
+                }
+                if let Ok(sh) = &obs1.shapes {
+                    let a: Vec<_> = sh.iter().map(|s| s.logical()).collect();
+                    let b: Vec<_> = src_shapes.iter().map(|s| s.logical()).collect();
+                    if a != b {
+                        why.push(format!("dimensions {a:?} != source {b:?}"));
+                    }
+                }
+                if name == "same" && p.shrink == 0 && r.native_eq(&src) == Some(false) {
+                    why.push("PartialEq says receiver != source".into());
+                }
+                if !why.is_empty() {
+                    let f = finding("roundtrip_mismatch", why.join("; "), json!({}));
+                    cx.fail("write_to+read_from", &f, &tags, &inner, &none);
+                }
+            }
+        }
+        for f in post_check(&out, &recv.model(), &obs1, &stream, consumed) {
+            cx.fail("read_from", &f, &tags, &inner, &json!({"stream": "valid"}));
+        }
+    }
+}
+
+// ------------------------------------------------------------------------------------------------ family: truncation
+
+struct Prep<S: Subject> {
+    stream: Vec<u8>,
+    lay: Layout,
+    recv: Receiver<S>,
+}
+
+fn prep<S: Subject>(cx: &mut Cx) -> Option<Prep<S>> {
+    let p = cx.case.p;
+    let kind = cx.case.recv;
+    let r = (|| -> Result<Prep<S>, String> {
+        let src: S = make(&p, 0, 1)?;
+        let stream = ser(&src)?;
+        let lay = layout::<S>(&p, 0)?;
+        if lay.len != stream.len() {
+            return Err("layout length mismatch".into());
+        }
+        let q = match kind {
+            Recv::Alt => alt_of(&p),
+            Recv::Larger => larger_of::<S>(&p),
+        };
+        let recv = Receiver::<S>::build(&q, 1, 2)?;
+        Ok(Prep {
+            stream,
+            lay,
+            recv,
+        })
+    })();
+    match r {
+        Ok(p) => Some(p),
+        Err(e) => {
+            // the valid-stream path is judged by the roundtrip family; here it only prevents fault injection
+            cx.rec.add("cases_without_valid_baseline", 1);
+            let f = finding("roundtrip_mismatch", e.clone(), json!({"error": e}));
+            cx.fail("write_to+read_from", &f, &[], &json!({}), &json!({}));
+            None
+        }
+    }
+}
+
+fn exec_truncation<S: Subject>(cx: &mut Cx) {
+    let Some(pp) = prep::<S>(cx) else {
+        return;
+    };
+    let l = pp.stream.len();
+    cx.rec.add("streams", 1);
+    cx.rec.add("truncation_points", l as u64);
+    cx.rec.sample(|| json!({"type": S::NAME, "p": cx.case.p, "recv": cx.case.recv, "stream_len": l, "segments": pp.lay.segs.len()}));
+    let model = pp.recv.model();
+    let none = json!({});
+    for t in 0..l {
+        let mut r = pp.recv.fresh();
+        let (out, consumed) = feed(&mut r, &pp.stream[..t]);
+        cx.rec.evals(1);
+        let (si, sg) = pp.lay.seg_at(t).map(|(i, s)| (i, s.clone())).unwrap();
+        let region = if sg.payload { "payload" } else { "header" };
+        cx.rec.distinct(fnv(format!("{}|{:?}|{:?}|{}|{}", S::NAME, cx.case.p, cx.case.recv, si, t - sg.off == 0).as_bytes()));
+        cx.rec.outcome(outcome_hash(S::NAME, &out));
+        let inner = json!({"t": t, "stream_len": l, "cut_in": region, "segment": {"index": si, "off": sg.off, "len": sg.len}});
+        let tags = [("receivers", format!("{:?}", cx.case.recv)), ("cut_in", region.to_string())];
+        match &out {
+            Outcome::Panic(m) => {
+                let f = finding(panic_kind(m), norm(m), json!({"panic": m}));
+                cx.fail("read_from(truncated)", &f, &tags, &inner, &none);
+                continue;
+            }
+            Outcome::Ok => {
+                let f = finding("accepted_truncated", "Ok on a strict prefix of a valid stream", json!({}));
+                cx.fail("read_from(truncated)", &f, &tags, &inner, &none);
+            }
+            Outcome::Err(_) => {}
+        }
+        let obs1 = observe(&r, pp.recv.limit(l));
+        for f in post_check(&out, &model, &obs1, &pp.stream[..t], consumed) {
+            cx.fail("read_from(truncated)", &f, &tags, &inner, &none);
+        }
+    }
+}
+
+// ------------------------------------------------------------------------------------------------ family: header faults
+
+const LABELS: [&str; 11] = ["n", "size", "rank", "rank_in", "dnum", "dsize", "cnt", "opt", "shrink", "base2k", "meta"];
+
+fn label_index(d: Dim) -> usize {
+    LABELS.iter().position(|l| *l == d.name()).unwrap()
+}
+
+/// Differential writes: which parameter(s) influence which non-payload byte.
+fn byte_labels<S: Subject>(p: &P, lay: &Layout) -> Vec<u16> {
+    let mut lab = vec![0u16; lay.len];
+    let Ok(base) = ser(&new_obj::<S>(p, 0)) else {
+        return lab;
+    };
+    let runs = lay.runs();
+    let mut mark = |other: &[u8], bit: usize, whole: bool| {
+        let m = base.len().min(other.len());
+        let Some(first) = (0..m).find(|&i| base[i] != other[i]) else {
+            return;
+        };
+        // lengths equal: every differing non-payload byte; else only the header run that holds the first difference
+        // (behind it the two streams are no longer aligned)
+        let end = if whole && base.len() == other.len() {
+            m
+        } else {
+            runs.iter().find(|(a, b)| *a <= first && first < *b).map(|r| r.1).unwrap_or(first + 1).min(m)
+        };
+        for i in first..end {
+            if lay.header[i] && base[i] != other[i] {
+                lab[i] |= 1 << bit;
+            }
+        }
+    };
+    for d in S::DIMS {
+        let q = if *d == Dim::Shrink { p.with(Dim::Shrink, 1 - p.shrink.min(1)) } else { p.grow(*d) };
+        if admissible::<S>(&q)
+            && let Ok(o) = ser(&new_obj::<S>(&q, 0))
+        {
+            mark(&o, label_index(*d), false);
+        }
+    }
+    let mut q = *p;
+    q.b2k = B2K_ALT;
+    if let Ok(o) = ser(&new_obj::<S>(&q, 0)) {
+        mark(&o, 9, true);
+    }
+    if let Ok(o) = ser(&new_obj::<S>(p, 1)) {
+        mark(&o, 10, true);
+    }
+    lab
+}
+
+#[derive(Clone, Debug, Serialize)]
+pub struct Field {
+    pub off: usize,
+    pub w: usize,
+    /// the deserialiser requests exactly these bytes in one read
+    pub traced: bool,
+    /// parameters that influence the bytes (differential writes)
+    pub label: String,
+    /// value of the byte-length word that ends the header run (the product of the dimensions times 8)
+    pub run_len_word: Option<u64>,
+}
+
+fn fields_of<S: Subject>(p: &P, lay: &Layout, stream: &[u8], tier: Tier) -> Vec<Field> {
+    let lab = byte_labels::<S>(p, lay);
+    let mut set: BTreeMap<(usize, usize), bool> = BTreeMap::new();
+    for s in lay.segs.iter().filter(|s| !s.payload) {
+        if matches!(s.len, 1 | 4 | 8) {
+            set.insert((s.off, s.len), true);
+        }
+    }
+    for (a, b) in lay.runs() {
+        let mut o = a;
+        while o + 4 <= b {
+            set.entry((o, 4)).or_insert(false);
+            if o + 8 <= b {
+                set.entry((o, 8)).or_insert(false);
+            }
+            o += 4;
+        }
+        // the same grid anchored at the end of the run (fields behind an odd-sized one)
+        let mut e = b;
+        while e >= a + 4 {
+            set.entry((e - 4, 4)).or_insert(false);
+            if e >= a + 8 {
+                set.entry((e - 8, 8)).or_insert(false);
+            }
+            e -= 4;
+        }
+        if tier.is_thorough() {
+            for i in a..b {
+                set.entry((i, 1)).or_insert(false);
+            }
+        }
+    }
+    let runs = lay.runs();
+    set.into_iter()
+        .map(|((off, w), traced)| {
+            let mut bits = 0u16;
+            for l in &lab[off..off + w] {
+                bits |= *l;
+            }
+            let label: Vec<&str> = LABELS.iter().enumerate().filter(|(i, _)| bits & (1 << i) != 0).map(|(_, l)| *l).collect();
+            // last traced 8-byte request of the run = the byte length of the payload that follows
+            let run = runs.iter().find(|(a, b)| *a <= off && off < *b).copied();
+            let run_len_word = run.and_then(|(_, b)| {
+                lay.segs
+                    .iter()
+                    .find(|s| !s.payload && s.len == 8 && s.off + 8 == b)
+                    .filter(|_| b < lay.len)
+                    .map(|s| u64::from_le_bytes(stream[s.off..s.off + 8].try_into().unwrap()))
+            });
+            Field {
+                off,
+                w,
+                traced,
+                label: label.join("+"),
+                run_len_word,
+            }
+        })
+        .collect()
+}
+
+/// The boundary dictionary for a field of width `w` bytes holding `v`.
+fn dictionary(v: u64, w: usize, len_word: Option<u64>, tier: Tier) -> Vec<(&'static str, u64)> {
+    let mask: u64 = if w >= 8 { u64::MAX } else { (1u64 << (8 * w)) - 1 };
+    let mut c: Vec<(&'static str, u128)> = vec![
+        ("zero", 0),
+        ("one", 1),
+        ("two", 2),
+        ("v_minus_1", (v.wrapping_sub(1) & mask) as u128),
+        ("v_plus_1", (v.wrapping_add(1) & mask) as u128),
+    ];
+    if w == 1 {
+        c.push(("u8_max", 0xFF));
+    }
+    if w >= 4 {
+        c.push(("2^31", 1 << 31));
+        c.push(("2^32-1", (1u128 << 32) - 1));
+    }
+    if w >= 8 {
+        c.push(("2^61", 1 << 61));
+        c.push(("2^63", 1 << 63));
+        c.push(("2^64-1", u64::MAX as u128));
+        // the three smallest values whose product with the other dimensions (times 8) overflows usize, and the
+        // smallest value above v whose product wraps to the same byte length
+        if let Some(lw) = len_word
+            && lw >= 2
+        {
+            let other: u128 = if v >= 1 && lw % v == 0 { (lw / v) as u128 } else { lw as u128 };
+            if other >= 2 {
+                let x0 = (1u128 << 64).div_ceil(other);
+                c.push(("overflow_min", x0));
+                c.push(("overflow_min+1", x0 + 1));
+                c.push(("overflow_min+2", x0 + 2));
+                let tz = other.trailing_zeros();
+                if tz >= 1 {
+                    c.push(("wraps_to_same_len", v as u128 + (1u128 << (64 - tz))));
+                }
+            }
+        }
+    }
+    let quick_keep = ["zero", "v_minus_1", "v_plus_1", "2^32-1", "2^61", "2^64-1", "overflow_min", "wraps_to_same_len", "u8_max"];
+    let mut out: Vec<(&'static str, u64)> = vec![];
+    for (name, x) in c {
+        if x > mask as u128 || x as u64 == v {
+            continue;
+        }
+        if !tier.is_thorough() && !quick_keep.contains(&name) {
+            continue;
+        }
+        if out.iter().any(|(_, y)| *y == x as u64) {
+            continue;
+        }
+        out.push((name, x as u64));
+    }
+    out
+}
+
+fn exec_header<S: Subject>(cx: &mut Cx, tier: Tier) {
+    let Some(pp) = prep::<S>(cx) else {
+        return;
+    };
+    let fields = fields_of::<S>(&cx.case.p, &pp.lay, &pp.stream, tier);
+    cx.rec.add("streams", 1);
+    cx.rec.add("header_fields", fields.len() as u64);
+    cx.rec.add("header_fields_traced", fields.iter().filter(|f| f.traced).count() as u64);
+    cx.rec.add("header_bytes", pp.lay.header.iter().filter(|h| **h).count() as u64);
+    cx.rec.sample(|| json!({"type": S::NAME, "p": cx.case.p, "recv": cx.case.recv, "stream_len": pp.stream.len(), "fields": fields.iter().filter(|f| f.traced).collect::<Vec<_>>()}));
+    let model = pp.recv.model();
+    let limit = pp.recv.limit(pp.stream.len());
+    let mut faulty = pp.stream.clone();
+    for fld in &fields {
+        let mut vb = [0u8; 8];
+        vb[..fld.w].copy_from_slice(&pp.stream[fld.off..fld.off + fld.w]);
+        let v = u64::from_le_bytes(vb);
+        for (vclass, x) in dictionary(v, fld.w, fld.run_len_word, tier) {
+            faulty[fld.off..fld.off + fld.w].copy_from_slice(&x.to_le_bytes()[..fld.w]);
+            let mut r = pp.recv.fresh();
+            let (out, consumed) = feed(&mut r, &faulty);
+            cx.rec.evals(1);
+            cx.rec.add("header_faults", 1);
+            cx.rec.distinct(fnv(format!("{}|{:?}|{}|{}|{}|{}", S::NAME, cx.case.recv, fld.label, fld.w, fld.traced, vclass).as_bytes()));
+            cx.rec.outcome(outcome_hash(S::NAME, &out));
+            let inner = json!({"field": fld, "original": v, "value": x, "value_class": vclass});
+            let more = json!({"field": {"off": fld.off, "w": fld.w, "label": fld.label, "traced": fld.traced}, "value_class": vclass, "value": x, "original": v});
+            let tags = [
+                ("receivers", format!("{:?}", cx.case.recv)),
+                ("value_classes", vclass.to_string()),
+                ("fields", format!("{}+{}:{}", fld.off, fld.w, fld.label)),
+            ];
+            match &out {
+                Outcome::Panic(m) => {
+                    cx.rec.add("outcome_panic", 1);
+                    let f = finding(panic_kind(m), norm(m), json!({"panic": m}));
+                    cx.fail("read_from(corrupted)", &f, &tags, &inner, &more);
+                    continue;
+                }
+                Outcome::Ok => cx.rec.add("outcome_ok_accepted", 1),
+                Outcome::Err(_) => cx.rec.add("outcome_err_rejected", 1),
+            }
+            let obs1 = observe(&r, limit);
+            for f in post_check(&out, &model, &obs1, &faulty, consumed) {
+                cx.fail("read_from(corrupted)", &f, &tags, &inner, &more);
+            }
+        }
+        faulty[fld.off..fld.off + fld.w].copy_from_slice(&pp.stream[fld.off..fld.off + fld.w]);
+    }
+}
+
+// ------------------------------------------------------------------------------------------------ run / replay
+
+fn dispatch(fam: &'static str, tier: Tier, case: &Case, rec: &mut Rec, col: &Collector, obs: &Collector) {
+    let mut cx = Cx {
+        fam,
+        case,
+        rec,
+        local_fail: BTreeMap::new(),
+        local_obs: BTreeMap::new(),
+        inner_ctr: 0,
+    };
+    let cxr = &mut cx;
+    match fam {
+        "roundtrip" => with_subject!(case.ty.as_str(), exec_roundtrip(cxr)),
+        "truncation" => with_subject!(case.ty.as_str(), exec_truncation(cxr)),
+        "header" => with_subject!(case.ty.as_str(), exec_header(cxr, tier)),
+        o => panic!("unknown family {o}"),
+    }
+    col.merge(cx.local_fail);
+    obs.merge(cx.local_obs);
+}
+
+fn cases(tier: Tier, fam: &str, grids: &BTreeMap<String, Vec<P>>) -> Vec<Case> {
+    let mut out = vec![];
+    // simplest first: types in DRIVERS order (hal, then core wrappers, then composite keys)
+    for ty in DRIVERS {
+        for p in &grids[*ty] {
+            let recvs: &[Recv] = if fam == "roundtrip" { &[Recv::Alt] } else { &[Recv::Alt, Recv::Larger] };
+            for r in recvs {
+                if fam != "roundtrip" && !tier.is_thorough() && *r == Recv::Larger && p.shrink > 0 {
+                    continue;
+                }
+                out.push(Case {
+                    idx: out.len(),
+                    ty: ty.to_string(),
+                    p: *p,
+                    recv: *r,
+                });
+            }
+        }
+    }
+    // `idx` is the simplest-first rank (it selects the representative of a failure class); the cases are *executed*
+    // largest first so that the few big composite keys do not form a sequential tail
+    out.reverse();
+    out
+}
+
+pub fn run(run: &mut Run) {
+    let tier = run.tier;
+    // coverage: the scan was already enforced in main(); record it
+    let cov = scan::coverage(DRIVERS);
+    assert!(cov.missing_driver.is_empty() && cov.stale_driver.is_empty(), "C18: driver table and source scan disagree");
+    let backend_dependent: Vec<&scan::Hit> = cov.readers.iter().chain(cov.writers.iter()).filter(|h| h.backend_generic).collect();
+    run.note(
+        "serialisable_types",
+        json!({
+            "count": cov.readers.len(),
+            "readers": cov.readers.iter().map(|h| format!("{} ({}:{})", h.ty, h.file, h.line)).collect::<Vec<_>>(),
+            "writer_impls": cov.writers.len(),
+            "impls_generic_over_backend": backend_dependent.len(),
+        }),
+    );
+    assert!(
+        backend_dependent.is_empty(),
+        "C18: a ReaderFrom/WriterTo impl is generic over the backend; the cross-backend format comparison must be extended"
+    );
+    run.assume("no ReaderFrom/WriterTo impl has a Backend type parameter (verified by the source scan at run time), so the byte format is the same code for every backend; the check therefore runs once, not per backend");
+    run.assume("parameter tuples rejected by the library constructors' asserts (e.g. size <= dsize, dnum*dsize > size) or whose fresh object cannot answer its own accessors (rank 0 for GGLWEToGGSWKey / circuit-bootstrapping keys) are outside the admissible domain");
+    run.assume("CircuitBootstrappingKey and BDDKey have no FillUniform/Clone/PartialEq: their payload is set by reading a valid stream whose payload segments (read requests longer than 32 bytes) were randomised, and equality is judged on the re-serialised stream; BDDKey has no information accessor, so its dimensions are judged through write_to only; GGSW-like types do not expose cols_in, which is a common factor of demand and capacity");
+    run.assume("a single allocation request above 64 MiB is refused by the harness allocator (returns null), so a header-controlled allocation surfaces as a caught 'memory allocation of N bytes failed' panic instead of aborting the process or being served lazily by an overcommitting kernel");
+    run.assume("panics of public information accessors on an accepted object (e.g. max_k() = size*base2k overflowing after base2k = 2^31 was accepted) and lenient parsing of don't-care bits are recorded as observations in the evidence notes, not judged: C18 constrains dimensions against buffers and metadata on failure, not scalar metadata ranges");
+
+    let mut grids: BTreeMap<String, Vec<P>> = BTreeMap::new();
+    let mut grid_note = serde_json::Map::new();
+    for ty in DRIVERS {
+        let (g, total) = grid_of(ty, tier);
+        assert!(!g.is_empty(), "C18: no admissible parameter tuple for {ty}");
+        grid_note.insert(ty.to_string(), json!({"admissible": g.len(), "enumerated": total}));
+        grids.insert(ty.to_string(), g);
+    }
+    run.note("parameter_grids", Value::Object(grid_note));
+
+    for (fam, rule) in [
+        ("roundtrip", "distinct = (type, receiver kind, parameters); receivers: same, alt_metadata, larger per capacity dimension, larger:all, exact_active_size, smaller per dimension"),
+        ("truncation", "distinct = (type, parameters, receiver, segment cut, cut at segment start or inside); every length 0..L-1"),
+        ("header", "distinct = (type, receiver, field label, width, traced, value class); every field x every dictionary entry"),
+    ] {
+        if !run.wants(fam) {
+            continue;
+        }
+        let cs = cases(tier, fam, &grids);
+        let col = Collector::new();
+        let obs = Collector::new();
+        run.family(fam, rule, cs, |c, rec| dispatch(fam, tier, c, rec, &col, &obs));
+        col.flush(run, fam);
+        obs.flush_notes(run, fam);
+    }
+}
+
+pub fn replay(run: &mut Run, d: &Value) {
+    let fam: &'static str = match d["family"].as_str().unwrap_or("") {
+        "roundtrip" => "roundtrip",
+        "truncation" => "truncation",
+        "header" => "header",
+        o => panic!("unknown family {o}"),
+    };
+    let case: Case = serde_json::from_value(d["case"].clone()).expect("case");
+    let tier = run.tier;
+    let col = Collector::new();
+    let obs = Collector::new();
+    run.single(fam, "replay of one outer case (all its inner faults)", |rec| dispatch(fam, tier, &case, rec, &col, &obs));
+    col.flush(run, fam);
+    obs.flush_notes(run, fam);
 }
